@@ -1233,15 +1233,17 @@ def apply_op(wd: World, op, step):
             cls = _classes()[op["cls"]]
             extra = cls(name="branch_only", **copy.deepcopy(op["params"]))
             br.add_algorithms(extra)
-            if op.get("preproc"):
-                br.detrend_data()
-                br.add_algorithms(cls(name="branch_only_2", **copy.deepcopy(op["params"])))
             try:
+                # whatever fails on the branch for reasons of its own (detrending a record with a dropout, a run that
+                # cannot succeed with these parameters) is the branch's business; only the original's registry is judged
+                if op.get("preproc"):
+                    br.detrend_data()
+                    br.add_algorithms(cls(name="branch_only_2", **copy.deepcopy(op["params"])))
                 br.run_by_name("branch_only")
             except Exception:
                 pass
         except Exception as e:
-            wd.violate("gate.add_raises", step, f"working on a shallow copy of a setup raised {type(e).__name__}: {e}")
+            wd.violate("gate.add_raises", step, f"copying a setup and adding an algorithm to the copy raised {type(e).__name__}: {e}")
             return "exc"
         reg_after = [(n_, id(o_)) for n_, o_ in (getattr(setup, "algorithms", {}) or {}).items()]
         wd.inc("probe.worked_on_a_shallow_copy_of_a_setup")
